@@ -1,6 +1,8 @@
 package main
 
 import (
+	"fmt"
+	"regexp"
 	"go/token"
 	"go/types"
 	"strings"
@@ -12,7 +14,7 @@ import (
 func init() {
 	register(&Prop{
 		ID:             "C20",
-		Pkgs:           []string{"common/merkle", "common/trie/ompt"},
+		Pkgs:           []string{"common/merkle", "common/trie/ompt", "service/sync2", "service/state"},
 		Run:            runC20,
 		MinObligations: 30,
 		Technique:      "static analysis: provenance of the stored key (computed hash, never supplied), guard dominance of every store by a request-map hit, index agreement requester[i] ↔ bucket[i], must-pass-through of request registration/completion on all paths, order of value replacement before recursive resolution in the trie nodes",
@@ -87,6 +89,7 @@ func loadOf(v ssa.Value) ssa.Value {
 }
 
 func runC20(c *Ctx) {
+	runC20Extra(c)
 	const mk = "common/merkle"
 	hit := wTrue("outstanding request for the computed hash", `^\$r\.hasherMap\[\$0\.Hasher\(\)\.Name\(\)\]\[\$0\.Hasher\(\)\.Hash\(\$1\)\]#1$`)
 
@@ -467,5 +470,90 @@ func runC20(c *Ctx) {
 			_ = tr
 		}
 		c.check(ok, "C20.node-resolution", "mpt.Resolve starts at the root unless the trie is empty", mr.Pos(), "m.resolve(bd, &m.root)", "Resolve can return without resolving the root")
+	}
+}
+
+// runC20Extra: the callers of the builder. A sync reports success only when
+// nothing is outstanding; every trusted root handed to the state builder
+// reaches a constructor that resolves through the builder (each to its own);
+// an account's Resolve asks for every part it references.
+func runC20Extra(c *Ctx) {
+	if f := c.mustFn("service/sync2", "syncProcessor", "DoSync"); f != nil {
+		n := 0
+		for _, e := range exitAlts(f) {
+			for _, fl := range flowsOf(e.Results[0], nil) {
+				if !isNilConst(fl.Src) {
+					continue
+				}
+				n++
+				gs := append(append([]Guard{}, e.Guards...), fl.Guards...)
+				c.requireGuard("C20.sync-verdict", "DoSync reports success", e.pos(), gs, wEQ("nothing is unresolved", 0, t(1, `\.UnresolvedCount\(\)$`)))
+			}
+		}
+		if n == 0 {
+			c.undecided("C20.sync-verdict", "DoSync", f.Pos(), "no nil flow into the result")
+		}
+	}
+	if f := c.mustFn("service/sync2", "syncer", "getStateBuilder"); f != nil {
+		var bld ssa.Value
+		for _, cs := range c.calls(f, byMethod("newMerkleBuilder")) {
+			bld = cs.Instr.Value()
+		}
+		used := map[*ssa.Parameter][]string{}
+		for _, cs := range c.calls(f, func(cc *ssa.CallCommon) bool { return true }) {
+			_, a := callArgs(cs.Common())
+			with := false
+			for _, x := range a {
+				if x == bld {
+					with = true
+				}
+			}
+			if !with {
+				continue
+			}
+			for _, x := range a {
+				if p, ok := x.(*ssa.Parameter); ok {
+					used[p] = append(used[p], calleeName(cs.Common()))
+				}
+			}
+		}
+		np := 0
+		for _, p := range f.Params[1:] {
+			if sl, ok := p.Type().Underlying().(*types.Slice); !ok || sl.Elem().String() != "byte" {
+				continue
+			}
+			np++
+			c.check(len(used[p]) == 1, "C20.trusted-roots", "trusted root "+p.Name()+" is handed to exactly one builder-resolving constructor", f.Pos(), strings.Join(used[p], ","), fmt.Sprintf("%s reaches %d constructors %v: a trusted root is never requested (or another is requested in its place) and the sync finishes with that part of the state missing", p.Name(), len(used[p]), used[p]))
+		}
+		if bld == nil || np < 5 {
+			c.undecided("C20.trusted-roots", "getStateBuilder", f.Pos(), fmt.Sprintf("builder found=%v, %d hash parameters", bld != nil, np))
+		}
+	}
+	if f := c.mustFn("service/state", "accountSnapshotImpl", "Resolve"); f != nil {
+		parts := c.calls(f, byMethod("Resolve"))
+		if len(parts) < 5 {
+			c.undecided("C20.account-parts", "accountSnapshotImpl.Resolve", f.Pos(), fmt.Sprintf("expected 5 sub-resolves (api info, storage, current/next contract, object graph), found %d", len(parts)))
+		}
+		for _, pc := range parts {
+			recv := render(pc.Common().Value)
+			if !pc.Common().IsInvoke() {
+				r, _ := callArgs(pc.Common())
+				recv = render(r)
+			}
+			recv = strings.TrimSuffix(recv, ".(trie.Immutable)")
+			bad := false
+			tr := ""
+			for _, e := range exitAlts(f) {
+				if !isNilConst(e.Results[0]) {
+					continue
+				}
+				if t0, by := pathAvoidingEdges(f, f.Blocks[0].Instrs[0], func(in ssa.Instruction) bool { return in == ssa.Instruction(e.Ret) }, func(in ssa.Instruction) bool { return in == ssa.Instruction(pc.Instr) },
+					wSame("the part is absent", "^"+regexp.QuoteMeta(recv)+"$", `^nil$`)); by {
+					bad = true
+					tr = traceString(t0)
+				}
+			}
+			c.check(!bad, "C20.account-parts", "account Resolve succeeds only after asking for "+recv, pc.Pos(), "skipped only when absent", "Resolve can return success without resolving "+recv+" ("+tr+"): the data behind it is never requested and the synced state is incomplete although nothing is outstanding")
+		}
 	}
 }
